@@ -204,8 +204,8 @@ func streamSection(x *h.X) {
 		if tc.name == "counter" {
 			distinct(x, "salt-repeats", cfg, "header salts", salts)
 			distinct(x, "nonce-prefix-repeats", cfg, "nonce prefixes", nps)
-			if end != len(seq)*n {
-				x.Fail("tape-range", "%s: %d writers consumed %d tape bytes, want %d x %d", cfg, len(seq), end, len(seq), n)
+			if end < len(seq)*n { // surplus draws are allowed
+				x.Fail("tape-range", "%s: %d writers consumed %d tape bytes, want at least %d x %d", cfg, len(seq), end, len(seq), n)
 			}
 		}
 	}
